@@ -213,6 +213,31 @@ def _fallback_corrupt(evs, profile):
     return None
 
 
+def _stacks_corrupt(evs, profile):
+    out = [dict(e) for e in evs]
+    # an inner call on an instance whose readiness was never observed
+    for e in out:
+        if e.get('e') in ('create', 'poll') and e.get('insts'):
+            ins = [dict(x) for x in e['insts']]
+            for x in ins:
+                if x.get('k') == 'call':
+                    x['a'] = 39
+                    e['insts'] = ins
+                    return out
+    return None
+
+
+def _listeners_corrupt(evs, profile):
+    out = [dict(e) for e in evs]
+    for e in out:
+        if e.get('e') == 'lrun' and e.get('mask') == 5:
+            c = list(e['counts'])
+            c[1] -= 1
+            e['counts'] = c
+            return out
+    return None
+
+
 COMPONENTS = {
     'bulkhead': {
         'spec_files': ['Bulkhead.tla', 'MC_Bulkhead.tla', 'Trace_Bulkhead.tla'],
@@ -356,6 +381,22 @@ COMPONENTS = {
         'random': {'quick': [{'runs': 1500}], 'thorough': [{'runs': 20000}]},
         'corrupt': _fallback_corrupt,
     },
+    'stacks': {
+        'spec_files': ['Stacks.tla', 'Readiness.tla', 'Trace_Stacks.tla'],
+        'mc': {'quick': [{'cfg': 'MC_Readiness.cfg', 'module': 'Readiness'}], 'thorough': [{'cfg': 'MC_Readiness.cfg', 'module': 'Readiness'}]},
+        'trace_module': 'Trace_Stacks', 'trace_cfg_tmpl': 'Trace_Stacks.cfg.tmpl',
+        'harness': 'stacks',
+        'random': {'quick': [{'runs': 600}], 'thorough': [{'runs': 8000}]},
+        'corrupt': _stacks_corrupt,
+    },
+    'listeners': {
+        'spec_files': ['Listeners.tla'],
+        'mc': {'quick': [{'cfg': 'MC_Listeners.cfg', 'module': 'Listeners'}], 'thorough': [{'cfg': 'MC_Listeners.cfg', 'module': 'Listeners'}]},
+        'trace_module': 'Listeners', 'trace_cfg_tmpl': 'Trace_Listeners.cfg.tmpl',
+        'harness': 'listeners',
+        'random': {'quick': [{'runs': 0}], 'thorough': [{'runs': 0}]},
+        'corrupt': _listeners_corrupt,
+    },
 }
 
 PROPS = {
@@ -380,6 +421,7 @@ PROPS = {
     'C18': {'comp': 'health', 'profile': 'full'},
     'C19': {'comp': 'chaos', 'profile': 'full'},
     'C17': {'comp': 'fallback', 'profile': 'full'},
+    'C20': {'parts': [{'comp': 'stacks', 'profile': 'transparent+readiness'}, {'comp': 'listeners', 'profile': 'listeners'}]},
     'C02': {'comp': 'ratelimiter', 'profile': 'ProfC02', 'drift_profile': 'ProfAll'},
     'C15': {'comp': 'ratelimiter', 'profile': 'ProfC15', 'drift_profile': 'ProfAll'},
 }
